@@ -1,5 +1,6 @@
 import AQ.Model.PacketProt
 import AQ.Model.PacketProtSpec
+import AQ.Model.PnSpace
 import Driver.Util
 namespace Drv
 open AQ AQ.PacketProt
@@ -7,6 +8,7 @@ open AQ AQ.PacketProt
 /-- stateless front end -/
 structure ProtW where
   unit : Unit := ()
+  pn : AQ.PnSpace.St := {}
 
 def showPErr (e : PErr) : String := "err " ++ e.name
 
@@ -31,8 +33,17 @@ def showTables : String :=
   s!"rk1={hexOut Spec.retryKeyV1} rn1={hexOut Spec.retryNonceV1} rk2={hexOut Spec.retryKeyV2} rn2={hexOut Spec.retryNonceV2} " ++
   s!"lt1={Spec.longTypesV1} lt2={Spec.longTypesV2}"
 
+def showPn (s : AQ.PnSpace.St) : String := s!"ok expected={s.expected} largest={showOpt s.largest}"
+
 def stepProt (w : ProtW) : List String → ProtW × String
   | ["prot.tables"] => (w, showTables)
+  -- QuicPacketSpace.expected_packet_number (one space)
+  | ["prot.pn.new"] => ({ w with pn := {} }, showPn {})
+  | ["prot.pn.drop"] => (w, showPn w.pn)
+  | ["prot.pn.accept", pn] =>
+    match pn.toNat? with
+    | some n => let s := AQ.PnSpace.step w.pn (.accepted n); ({ w with pn := s }, showPn s)
+    | none => (w, "bad-op")
   -- queries (model only)
   | ["prot.q.nonce", iv, pn] =>
     match ofHex iv, pn.toNat? with
